@@ -193,6 +193,11 @@ def run_cli_matrix(ctx, binpath, metas, variants, jobs=16):
                 outp = os.path.join(d, "out_%04d_%d.json" % (m["id"], vi))
                 if os.path.exists(outp):
                     os.remove(outp)
+                if v.get("stale_out"):
+                    # the output path already holds a (longer) result of an earlier run
+                    with open(outp, "w") as f:
+                        json.dump({"format": "X-courseassignment-simple", "version": "1.1", "assignment": [None] * 400,
+                                   "quality": {"solution_score": 1, "theoretical_max_score": 1, "solution_quality": 0.0, "theoretical_max_quality": 0.0}}, f)
                 args.append(outp)
             tasks.append((m, v, args, outp))
 
